@@ -69,7 +69,14 @@ impl ZkirRelation {
 
         // If the public input types are not known, we can initialize them with an
         // in-circuit parser pass.
-        dummy_synthesize_run(&MidnightCircuit::from_relation(self))?;
+        // (A fixed `max_bit_len` is given so that building the circuit does not go
+        // through the cost model, which panics on programs that fail to synthesize.)
+        dummy_synthesize_run(&MidnightCircuit::new(
+            self,
+            Value::unknown(),
+            Value::unknown(),
+            Some(8),
+        ))?;
         let pi_types = self.public_input_types.borrow().clone();
         assert_eq!(pis.len(), pi_types.len());
         Ok(pis.into_iter().zip(pi_types).collect())
